@@ -123,6 +123,13 @@ def _text(case, salt, ws):
         inner = body["else"]
         body = M.if_([(M.cmp_(I("region"), "in", M.tup([S(r) for r in EXCLUDED_REGIONS])),
                        M.if_([(M.cmp_(I("uid"), "<", M.lit_int("0")), M.ret([(S("qa"), "1")]))], None))], inner)
+    if case.get("cond") == 7:
+        # a one-member list ( "EU-WEST" ) is a tuple with one member, not a parenthesised string: "EU-W" is no member of it
+        # (it would be a substring of the string)
+        I, S = M.ident, M.lit_str
+        inner = body["else"]
+        body = M.if_([(M.cmp_(I("region"), "in", M.tup([S("EU-WEST")])), M.ret([(S("qa"), "1")])),
+                      (M.cmp_(I("region"), "not in", M.tup([S("xAPACx")])), inner)], M.ret([(S("qa2"), "1")]))
     if case.get("cond") == 6:
         # no splitter fields at all (with or without a salt): the draw is random by weight, so the population still splits in
         # proportion (the global generator is seeded by the harness: a pure function of the case)
@@ -212,7 +219,10 @@ def judge(case):
                     if case["n"] % 2 == 0 and len(case["weights"]) % 2:
                         common.refused_deploy(ev, texts[1])
                         tags.append("refused-deploy-before-the-second-salt")
-                    ev.recompile(texts[1])
+                    if case["offset"] % 2:
+                        common.recycled_recompile(ev, texts[0], texts[1])
+                    else:
+                        ev.recompile(texts[1])
                 except Exception as e:
                     return {"viol": ["recompile raised %s: %s | %s" % (type(e).__name__, e, texts[1])], "tags": tags}
         a, err = _evaluate(case, ev)
@@ -276,7 +286,7 @@ def fixed_cases(n):
                "salts": [s2, s1], "n": n}
     yield {"second": "fresh", "family": "seq-int", "offset": 0, "weights": ["2", "1", "1", "2"], "salts": ["A", "B"], "n": n,
            "labels": [M.enc(x) for x in ["control", "treatment", "holdout", "treatment"]]}
-    for fam, c in (("seq-int", 1), ("email", 1), ("two-field", 2), ("two-field", 1), ("uuid-sequential", 1), ("zero-padded", 3), ("two-field", 3), ("seq-int", 4), ("email", 4), ("two-field", 5), ("builtin-names", 0), ("builtin-names", 1), ("seq-int", 6), ("email", 6)):
+    for fam, c in (("seq-int", 1), ("email", 1), ("two-field", 2), ("two-field", 1), ("uuid-sequential", 1), ("zero-padded", 3), ("two-field", 3), ("seq-int", 4), ("email", 4), ("two-field", 5), ("builtin-names", 0), ("builtin-names", 1), ("seq-int", 6), ("email", 6), ("two-field", 7)):
         yield {"cond": c, "second": "fresh", "family": fam, "offset": 5, "weights": ["1", "3"], "salts": ["A", "B"], "n": n}
     yield {"second": "fresh", "family": "email", "offset": 7, "weights": ["1", "2", "1"], "salts": ["A", "B"], "n": n,
            "labels": [M.enc(x) for x in ["B", "B'", '"B']]}
